@@ -169,3 +169,51 @@ pub fn record_error_addr(addr: u64) {
 pub fn last_error_addr() -> u64 {
     LAST_ERROR_ADDR.load(Ordering::Relaxed)
 }
+
+static EMPTY_STDLIB: std::sync::atomic::AtomicBool = std::sync::atomic::AtomicBool::new(false);
+
+/// When set, the `std` module the compiler injects into every program is empty (the module is
+/// still injected, so a user module named `std` is still a duplicate). Compiling the real
+/// standard library (11 functions) with every program puts the compiler out of reach of symbolic
+/// execution; harnesses about the compiler itself switch it off.
+pub fn set_empty_stdlib(on: bool) {
+    EMPTY_STDLIB.store(on, Ordering::Relaxed);
+}
+
+pub fn empty_stdlib() -> bool {
+    EMPTY_STDLIB.load(Ordering::Relaxed)
+}
+
+static ERROR_CHAIN: [AtomicU64; 4] = [
+    AtomicU64::new(u64::MAX),
+    AtomicU64::new(u64::MAX),
+    AtomicU64::new(u64::MAX),
+    AtomicU64::new(u64::MAX),
+];
+static ERROR_CHAIN_LEN: AtomicU64 = AtomicU64::new(0);
+
+/// called by the interpreter for every call frame it visits while it builds the trace of a
+/// runtime error, in the order of the visit, with the frame's call-site address
+pub fn record_error_chain_addr(addr: u64) {
+    let n = ERROR_CHAIN_LEN.fetch_add(1, Ordering::Relaxed);
+    if (n as usize) < ERROR_CHAIN.len() {
+        ERROR_CHAIN[n as usize].store(addr, Ordering::Relaxed);
+    }
+}
+
+pub fn reset_error_chain() {
+    ERROR_CHAIN_LEN.store(0, Ordering::Relaxed);
+}
+
+/// (number of frames visited, the first four call-site addresses in visiting order)
+pub fn error_chain() -> (u64, [u64; 4]) {
+    (
+        ERROR_CHAIN_LEN.load(Ordering::Relaxed),
+        [
+            ERROR_CHAIN[0].load(Ordering::Relaxed),
+            ERROR_CHAIN[1].load(Ordering::Relaxed),
+            ERROR_CHAIN[2].load(Ordering::Relaxed),
+            ERROR_CHAIN[3].load(Ordering::Relaxed),
+        ],
+    )
+}
